@@ -43,3 +43,41 @@ def subset_views(scn, outs, prefix):
         if t[0] == prefix and len(t) == 2:
             res[int(t[1])] = o
     return res
+
+M64 = (1 << 64) - 1
+
+def mix(seed, idx):
+    x = (seed * 6364136223846793005 + idx * 1442695040888963407 + 1013904223) & M64
+    y = ((x ^ (x >> 29)) * 2685821657736338717) & M64
+    return y ^ (y >> 32)
+
+def pick_raw(mode, seed, idx, nb):
+    """the raw pattern `ss.fill` chooses (same formula as the harness and the driver)"""
+    if nb <= 0:
+        return 0
+    x = mix(seed, idx)
+    allones = (1 << nb) - 1
+    rnd = (x >> 4) % (1 << nb)
+    if mode == 2: return 0
+    if mode == 3: return allones - 1
+    if mode == 4: return allones
+    if mode == 1: return 0 if allones == 0 else (x >> 4) % allones
+    k = x % 16
+    if k < 2: return 0
+    if k < 4: return allones - 1
+    if k < 6: return allones
+    return rnd
+
+def cvt_ivalue(raw, nb):
+    if raw == (1 << nb) - 1: return -1
+    sb = 1 << (nb - 1)
+    return -(raw % sb) if raw & sb else raw
+
+def fill_raw(mode, seed, idx, nb, typ):
+    """pick_raw with the adjustments `ss.fill` makes (64-bit top bits, new reference -1)"""
+    raw = pick_raw(mode, seed, idx, nb)
+    if nb == 64 and raw != M64:
+        raw &= (1 << 62) - 1
+    if typ == 8 and cvt_ivalue(raw, nb) == -1:
+        raw = 0
+    return raw
